@@ -96,7 +96,7 @@ func init() {
 		if tier == "thorough" {
 			pl = []schedPlan{{"snap1-seq", 4, 600}, {"snap1-par", 3, 500}, {"snap1-big", 3, 400}, {"inst3-restore", 4, 600}, {"inst3-compact", 4, 600}}
 		}
-		cl := []plan{{"snap3-d2", 80}, {"memsnap3-d2", 70}, {"stalesuffix3-d2", 65}, {"slowsnap3-d2", 40}, {"slowapplysnap3-d2", 40}}
+		cl := []plan{{"snap3-d2", 80}, {"memsnap3-d2", 70}, {"stalesuffix3-d2", 65}, {"slowsnap3-d2", 40}, {"slowapplysnap3-d2", 40}, {"filesnap3-d2", 60}}
 		if tier == "thorough" {
 			cl = []plan{{"snap3-d3", 500}, {"memsnap3-d3", 400}, {"bigsnap3-d2", 200}, {"stalesuffix3-d3", 300}, {"slowsnap3-d3", 500}, {"slowapplysnap3-d3", 500}}
 		}
